@@ -232,4 +232,87 @@ theorem inherit_eq_findSome (f : Attrs → Option Nat) : ∀ (t : TreeRec) (anc 
       rw [inherit_eq_findSome f p ps]
       simp [List.findSome?_cons]
 
+/-- the recursion guard makes the /Parent walk finite: with more fuel than objects the model never runs dry -/
+theorem loadTree_ne_oof (tbl : Tbl) (keys : List Nat) (hk : ∀ r o, tbl r = some o → r ∈ keys) :
+    ∀ (fuel : Nat) (stack : List Nat) (r : Nat), stack.Nodup → stack ⊆ keys → keys.length < fuel + stack.length →
+    loadTree tbl fuel stack r ≠ .oof
+  | 0, stack, r, hn, hs, hl => by
+    have := List.Nodup.length_le_of_subset hn hs
+    omega
+  | f + 1, stack, r, hn, hs, hl => by
+    unfold loadTree
+    split
+    · simp
+    · rename_i hmem
+      split
+      · rename_i parent kids count a he
+        split
+        · simp
+        · split
+          · simp
+          · rename_i p
+            have ih := loadTree_ne_oof tbl keys hk f (r :: stack) p
+              (List.nodup_cons.mpr ⟨hmem, hn⟩)
+              (by intro x hx; rcases List.mem_cons.mp hx with rfl | hx; exact hk _ _ he; exact hs hx)
+              (by simp only [List.length_cons]; omega)
+            cases h : loadTree tbl f (r :: stack) p with
+            | ok v => obtain ⟨t, anc⟩ := v; simp
+            | err => simp
+            | panic => simp
+            | oof => exact absurd h ih
+      · simp
+
+theorem loadNode_ne_oof (tbl : Tbl) (keys : List Nat) (hk : ∀ r o, tbl r = some o → r ∈ keys) (fuel : Nat)
+    (hf : keys.length ≤ fuel) (r : Nat) : loadNode tbl fuel r ≠ .oof := by
+  unfold loadNode
+  split
+  · rename_i p a he
+    have := loadTree_ne_oof tbl keys hk fuel [r] p (by simp) (by intro x hx; simp at hx; subst hx; exact hk _ _ he) (by simp; omega)
+    cases h : loadTree tbl fuel [r] p with
+    | ok v => obtain ⟨t, anc⟩ := v; simp
+    | err => simp
+    | panic => simp
+    | oof => exact absurd h this
+  · have := loadTree_ne_oof tbl keys hk (fuel + 1) [] r (by simp) (by simp) (by simp; omega)
+    cases h : loadTree tbl (fuel + 1) [] r with
+    | ok v => obtain ⟨t, anc⟩ := v; simp
+    | err => simp
+    | panic => simp
+    | oof => exact absurd h this
+  · simp
+
+theorem pageKids_ne_oof (load : Nat → Out LNode) (sub : TreeRec → Nat → Out Leaf) (hl : ∀ r, load r ≠ .oof)
+    (hs : ∀ t n, sub t n ≠ .oof) (n : Nat) : ∀ (ks : List Nat) (pos : Nat), pageKids load sub n ks pos ≠ .oof
+  | [], _ => by simp [pageKids]
+  | k :: ks, pos => by
+    unfold pageKids
+    have ih := pageKids_ne_oof load sub hl hs n ks
+    cases h : load k with
+    | ok v =>
+      cases v with
+      | tree t anc =>
+        simp only []
+        split
+        · simp
+        · split
+          · exact hs _ _
+          · exact ih _
+      | leaf l =>
+        simp only []
+        split
+        · simp
+        · split
+          · simp
+          · exact ih _
+    | err => simp
+    | panic => simp
+    | oof => exact absurd h (hl k)
+
+theorem pageLimited_ne_oof (tbl : Tbl) (keys : List Nat) (hk : ∀ r o, tbl r = some o → r ∈ keys) (fuel : Nat)
+    (hf : keys.length ≤ fuel) : ∀ (depth : Nat) (t : TreeRec) (n : Nat), pageLimited tbl fuel depth t n ≠ .oof
+  | 0, _, _ => by simp [pageLimited]
+  | d + 1, t, n => by
+    simp only [pageLimited]
+    exact pageKids_ne_oof _ _ (loadNode_ne_oof tbl keys hk fuel hf) (fun t n => pageLimited_ne_oof tbl keys hk fuel hf d t n) n _ _
+
 end PageTree
